@@ -10,9 +10,21 @@
      or (1) when the model's parser rejects the token string.
    wire format of a Python concrete tree (pycst):
      (0 (chars)) atom  (1 t) parenthesis  (2 t) minus  (3 op l r) binary  (4 (name) (args)) call
-   "pytree" answers (pywf (pyflat chars) (xflat (pyabs t) chars)). *)
+   "pytree" answers (pywf (pyflat chars) (xflat (pyabs t) chars)).
+   "eval" (cst, cells, table): the value of the compiled formula in an
+     environment given by the harness: cells = ((address chars) value)*,
+     table = ((python function name chars) (argument values) result)* — the
+     meanings of the library functions at the argument tuples met so far
+     (result = (0 value) | (1 exception code)).  Answers
+       (0 py_value xl_value evalb)  — both as (0 value) | (1 exception code)
+       (4 (name chars) (argument values)) — the first call (evaluation order,
+           arguments evaluated) whose meaning the table does not give yet: the
+           harness asks the implementation's function and calls again
+       (1) no parse.
+   "number" (chars): (py_number | (1)) (xl_numval | (1)) zeros_ok. *)
 From Coq Require Import ZArith List Bool String Extraction ExtrOcamlBasic.
-From PV Require Import Lib.Py Extract.Sx Model.Syntax Model.Emit.
+From Coq Require Import QArith.
+From PV Require Import Lib.Py Extract.Sx Model.Syntax Model.Emit Model.FormulaEval.
 Import ListNotations.
 Open Scope Z_scope.
 
@@ -154,12 +166,158 @@ Definition decint_entry (args : list sx) : sx :=
   | _ => bad_args
   end.
 
+(* ------------------------------------------------------------ evaluation *)
+Fixpoint val_eqb (a b : pyval) : bool :=
+  match a, b with
+  | VNone, VNone => true
+  | VBool x, VBool y => Bool.eqb x y
+  | VInt x, VInt y => x =? y
+  | VFloat x, VFloat y => Qeq_bool x y
+  | VStr x, VStr y => zs_eqb x y
+  | VTuple x, VTuple y =>
+      (fix go (x y : list pyval) : bool :=
+         match x, y with
+         | [], [] => true
+         | u :: x', v :: y' => val_eqb u v && go x' y'
+         | _, _ => false end) x y
+  | _, _ => false
+  end.
+Fixpoint vals_eqb (x y : list pyval) : bool :=
+  match x, y with
+  | [], [] => true
+  | u :: x', v :: y' => val_eqb u v && vals_eqb x' y'
+  | _, _ => false
+  end.
+
+Definition fentry := (list Z * list pyval * res pyval)%type.
+
+Fixpoint dec_vals (l : list sx) : option (list pyval) :=
+  match l with
+  | [] => Some []
+  | y :: l' => match dec_val y, dec_vals l' with Some v, Some r => Some (v :: r) | _, _ => None end
+  end.
+Definition exn_of_code (z : Z) : exn :=
+  match z with
+  | 1 => ValueError | 2 => TypeError | 3 => ZeroDivisionError | 4 => IndexError | 5 => KeyError
+  | 6 => AssertionError | 7 => AttributeError | 8 => OverflowError | 9 => NotImplementedError
+  | 10 => RecursionError | 11 => StopIteration | 99 => OutOfFuel | _ => Unmodelled
+  end.
+Definition dec_fres (x : sx) : option (res pyval) :=
+  match x with
+  | SL [SZ 0; v] => option_map Ok (dec_val v)
+  | SL [SZ 1; SZ c] => Some (Raise (exn_of_code c))
+  | _ => None
+  end.
+Fixpoint dec_table (l : list sx) : option (list fentry) :=
+  match l with
+  | [] => Some []
+  | SL [SL n; SL a; r] :: l' =>
+      match sx_zs n, dec_vals a, dec_fres r, dec_table l' with
+      | Some n, Some a, Some r, Some t => Some ((n, a, r) :: t)
+      | _, _, _, _ => None
+      end
+  | _ => None
+  end.
+Fixpoint dec_cells (l : list sx) : option (list (list Z * pyval)) :=
+  match l with
+  | [] => Some []
+  | SL [SL n; v] :: l' =>
+      match sx_zs n, dec_val v, dec_cells l' with
+      | Some n, Some v, Some t => Some ((n, v) :: t)
+      | _, _, _ => None
+      end
+  | _ => None
+  end.
+
+Fixpoint tlookup (t : list fentry) (f : list Z) (vs : list pyval) : option (res pyval) :=
+  match t with
+  | [] => None
+  | (n, a, r) :: t' => if zs_eqb n f && vals_eqb a vs then Some r else tlookup t' f vs
+  end.
+Fixpoint clookup (c : list (list Z * pyval)) (a : list Z) : option pyval :=
+  match c with
+  | [] => None
+  | (n, v) :: c' => if zs_eqb n a then Some v else clookup c' a
+  end.
+
+Definition n_C : list Z := zs "_C_".
+Definition n_R : list Z := zs "_R_".
+(* the harness' cell reader raises KeyError for an unknown address and for
+   every range; every other name is a library function given by the table
+   (OutOfFuel marks "not in the table yet": the answer is then (4 ...)) *)
+Definition mk_env (cells : list (list Z * pyval)) (t : list fentry) : env :=
+  {| e_fun := fun f =>
+       if zs_eqb f n_C then
+         Some (fun vs => match vs with
+                         | [VStr a] => match clookup cells a with Some v => Ok v | None => Raise KeyError end
+                         | _ => Raise TypeError end)
+       else if zs_eqb f n_R then Some (fun _ => Raise KeyError)
+       else Some (fun vs => match tlookup t f vs with Some r => r | None => Raise OutOfFuel end);
+     e_name := fun _ => None |}.
+
+Definition is_lib (f : list Z) : bool := negb (zs_eqb f n_C || zs_eqb f n_R).
+
+Fixpoint need (E : env) (t : list fentry) (x : pyexpr) : option (list Z * list pyval) :=
+  match x with
+  | XAtom _ | XOther => None
+  | XNeg a => need E t a
+  | XBin _ l r => match need E t l with Some n => Some n | None => need E t r end
+  | XCall f args =>
+      match (fix go (l : list pyexpr) : option (list Z * list pyval) :=
+               match l with
+               | [] => None
+               | a :: l' => match need E t a with Some n => Some n | None => go l' end
+               end) args with
+      | Some n => Some n
+      | None =>
+          if is_lib f then
+            match mapM (pyeval E) args with
+            | Ok vs => match tlookup t f vs with Some _ => None | None => Some (f, vs) end
+            | Raise _ => None
+            end
+          else None
+      end
+  end.
+
+Definition eval_entry (args : list sx) : sx :=
+  match args with
+  | [x; SL cells; SL table] =>
+      match dec_cst x, dec_cells cells, dec_table table with
+      | Some c, Some cells, Some t =>
+          match parse (flat c) with
+          | Some e =>
+              let E := mk_env cells t in
+              match need E t (pyabs (emit CtxTop e)) with
+              | Some (f, vs) => SL [SZ 4; enc_str f; SL (map enc_val vs)]
+              | None => SL [SZ 0; enc_res (py_value E e); enc_res (xl_value E e); enc_bool (evalb e)]
+              end
+          | None => SL [SZ 1]
+          end
+      | _, _, _ => bad_args
+      end
+  | _ => bad_args
+  end.
+
+Definition number_entry (args : list sx) : sx :=
+  match args with
+  | [SL v] =>
+      match sx_zs v with
+      | Some s =>
+          let enc o := match o with Some v => SL [SZ 0; enc_val v] | None => SL [SZ 1] end in
+          SL [enc (py_number s); enc (xl_numval s); enc_bool (zeros_ok s)]
+      | None => bad_args
+      end
+  | _ => bad_args
+  end.
+
 Open Scope string_scope.
 Definition table : list entry :=
   [ E "parse" parse_entry
   ; E "pytree" pytree_entry
   ; E "text" text_entry
   ; E "decint" decint_entry
+  ; E "eval" eval_entry
+  ; E "number" number_entry
   ].
 
 Definition dispatch (name : list Z) (args : list sx) : sx :=
